@@ -36,7 +36,8 @@ class Gen:
         if k < 7:
             return r.choice(['True', 'False'])
         if k < 8:
-            return 'None'
+            # now and then one of the rarer constants: bytes, complex, Ellipsis
+            return r.choice(['None', 'None', 'None', 'None', "b'ab'", "b'zz'", '2j', '1j', '...'])
         if k < 9:
             return '[' + ', '.join(self.literal() for _ in range(r.randrange(3))) + ']'
         return '{' + ', '.join('%s: %s' % (repr(r.choice(STRS)), self.literal()) for _ in range(r.randrange(3))) + '}'
@@ -78,7 +79,12 @@ class Gen:
         if k < 95:
             return '[%s for %s in %s]' % (self.expr(d + 1), r.choice(NAMES), self.expr(d + 1))
         if k < 96:
-            return '(lambda %s: %s)' % (r.choice(NAMES), self.expr(d + 1))
+            first = r.choice(NAMES)
+            params = first
+            if r.random() < 0.5:
+                # a parameter with a default: the default sits beside the parameters under the `arguments` node
+                params += ', %s=%s' % (r.choice([n for n in NAMES if n != first]), r.choice([r.choice(NAMES), self.literal()]))
+            return '(lambda %s: %s)' % (params, self.expr(d + 1))
         if k < 97:
             return '(%s, %s)' % (self.expr(d + 1), self.expr(d + 1))
         if k < 98:
